@@ -361,7 +361,8 @@ def mat_family(rng, n, nd, cls):
 
 RECIPES = ['linsolve-dense-spd', 'linsolve-dense-indef', 'linsolve-dense-general', 'linsolve-sparse-spd',
            'linsolve-sparse-indef', 'linsolve-sparse-general', 'stiffness-linsolve', 'assemble-general',
-           'filterconv', 'densityfilter', 'overhang', 'soe', 'static-condensation', 'eigensolve', 'eigensolve-gen',
+           'filterconv', 'densityfilter', 'overhang', 'soe', 'soe-general-dense', 'static-condensation',
+           'static-condensation-dense', 'eigensolve', 'eigensolve-gen', 'eigensolve-sparse', 'eigensolve-sparse-shift',
            'scaling-constraint', 'pnorm-undamped']
 CONTROLS = ['control:scaling-objective', 'control:aggscaling-damped']
 
@@ -418,12 +419,12 @@ def build_lib(pym, fm, recipe, rs):
         inputs = dict(x=lambda g: 0.05 + 0.9 * g.random(dom.nel))
         seedable = ['g', 'y', 'z']
         net = pym.Network(m1, m2, m3)
-    elif recipe in ('soe', 'static-condensation'):
+    elif recipe in ('soe', 'soe-general-dense', 'static-condensation', 'static-condensation-dense'):
         n, nd = 6, 3
-        A0, As = mat_family(rs, n, nd, 'spd')
+        A0, As = mat_family(rs, n, nd, 'general' if recipe == 'soe-general-dense' else 'spd')
         x = S('x')
-        mA = fm['MatAsm'](x, S('A'), A0, As, True)
-        if recipe == 'soe':
+        mA = fm['MatAsm'](x, S('A'), A0, As, not recipe.endswith('-dense'))
+        if recipe.startswith('soe'):
             bf, xp = S('bf'), S('xp')
             kw = dict(prescribed=np.array([1, 4])) if rs.random() < 0.5 else dict(free=np.array([0, 2, 3, 5]))
             mS = pym.SystemOfEquations([mA.sig_out[0], bf, xp], [S('xx'), S('bb')], **kw)
@@ -440,6 +441,19 @@ def build_lib(pym, fm, recipe, rs):
             inputs = dict(x=design(nd))
             seedable = ['g']
             net = pym.Network(mA, mS, mG)
+    elif recipe in ('eigensolve-sparse', 'eigensolve-sparse-shift'):
+        n, nd = 12, 3
+        A0, As = mat_family(rs, n, nd, 'spd')
+        A0 = A0 + np.diag(np.arange(n) * 1.3)
+        x = S('x')
+        mA = fm['MatAsm'](x, S('A'), A0, As, True)
+        mE = pym.EigenSolve(mA.sig_out[0], [S('lam'), S('Q')], nmodes=3,
+                            **(dict(sigma=5.1) if recipe.endswith('shift') else {}))
+        mG = fm['SqSum'](mE.sig_out[0], S('g'))
+        sigs = dict(x=x, A=mA.sig_out[0], lam=mE.sig_out[0], Q=mE.sig_out[1], g=mG.sig_out[0])
+        inputs = dict(x=design(nd))
+        seedable = ['g', 'lam', 'Q']
+        net = pym.Network(mA, mE, mG)
     elif recipe in ('eigensolve', 'eigensolve-gen'):
         n, nd = 4, 3
         A0, As = mat_family(rs, n, nd, 'indef' if recipe == 'eigensolve' else 'spd')
@@ -537,8 +551,13 @@ def run_lib(pym, fm, recipe, seed, nops):
     log = []
     for op in ops:
         if op[0] == 'set':
-            cur[op[1]] = net['inputs'][op[1]](g)
+            new = net['inputs'][op[1]](g)
+            reshaped = np.shape(new) != np.shape(cur[op[1]])
+            cur[op[1]] = new
             net['sigs'][op[1]].state = np.array(cur[op[1]], copy=True)
+            if reshaped:        # seeds of the old shape must not survive a change of shape: clean the network first
+                net['net'].reset()
+                log.append('reset(after reshape)')
         elif op[0] == 'resp':
             net['net'].response()
         elif op[0] == 'seed':
@@ -637,7 +656,7 @@ def run(ctx):
         with open(ctx.replay) as f:
             rp = json.load(f)['case']
         cases = [('replay', rp['case'])] if 'case' in rp and 'modules' in rp.get('case', {}) else []
-    ngen = 0 if getattr(ctx, 'replay', None) else (350 if ctx.quick() else 5000)
+    ngen = 0 if getattr(ctx, 'replay', None) else (900 if ctx.quick() else 6000)
     checks, labels, kept = [], [], {}
     k = 0
     attempts = 0
@@ -694,7 +713,7 @@ def run(ctx):
     # ---- purity validation on library networks (history run vs fresh run of the implementation)
     pv = {}
     g = np.random.default_rng(ctx.seed)
-    reps = 6 if ctx.quick() else 60
+    reps = 20 if ctx.quick() else 150
     if getattr(ctx, 'replay', None):
         with open(ctx.replay) as f:
             rp = json.load(f)['case']
@@ -731,7 +750,7 @@ def run(ctx):
                           dict(witness=name), expected='same as fresh module', got=msg)
     ctx.extra['purity_validation'] = pv
     for c in CONTROLS:
-        if c in pv and pv[c]['differing'] == 0 and pv[c]['histories'] >= 6:
+        if c in pv and pv[c]['differing'] == 0 and pv[c]['histories'] >= 10:
             ctx.obligation('harness:positive control ' + c + ' shows history dependence', 'harness', False,
                            'the documented memory was not observed: the comparison has no detection power')
             ctx.violation('correspondence', c, 'positive control detected', 'harness', dict(control=c, stats=pv[c]),
